@@ -540,6 +540,18 @@ def run_prop(ctx, prop, focuses):
         out.rule = "replay of a native process-backend probe case"
         m1_threads.process_probe(ctx, out, {prop}, 1, cases=[ctx.replay["case"]])
         return out
+    if ctx.replay and ctx.replay.get("case", {}).get("kind") == "native-exc-kind":
+        from . import m1_threads
+        out = Result()
+        out.rule = "replay of a native exception-kind probe case"
+        m1_threads.exception_kind_probe(ctx, out, {prop}, 1, cases=[ctx.replay["case"]])
+        return out
+    if ctx.replay and ctx.replay.get("case", {}).get("kind") == "native-stuck-sibling":
+        from . import m1_threads
+        out = Result()
+        out.rule = "replay: the stuck-sibling probe is re-run"
+        m1_threads.stuck_sibling_probe(ctx, out, {prop}, 4)
+        return out
     if ctx.replay and ctx.replay.get("case", {}).get("instr"):
         sc = Scenario.from_json(ctx.replay["case"])
         out = Result()
@@ -562,6 +574,8 @@ def run_prop(ctx, prop, focuses):
             m1_threads.probe(ctx, out, {prop}, 80)
             m1_threads.process_probe(ctx, out, {prop}, 16)
             m1_threads.legacy_backend_probe(ctx, out, {prop}, 24)
+            m1_threads.exception_kind_probe(ctx, out, {prop}, 24)
+            m1_threads.stuck_sibling_probe(ctx, out, {prop}, 8)
         return out
     rs = [explore(ctx, {prop}, 2400 // len(focuses), f"quick-{f}", f) for f in focuses]
     out = merge(rs)
@@ -573,6 +587,8 @@ def run_prop(ctx, prop, focuses):
         m1_threads.probe(ctx, out, {prop}, 12)
         m1_threads.process_probe(ctx, out, {prop}, 4)
         m1_threads.legacy_backend_probe(ctx, out, {prop}, 8)
+        m1_threads.exception_kind_probe(ctx, out, {prop}, 12)
+        m1_threads.stuck_sibling_probe(ctx, out, {prop}, 3)
     return out
 
 
